@@ -50,7 +50,7 @@ CLAIMED = {
          'Decides escape/un-escape agreement, the index grammar and bounds clauses and error-before-mutation (intraprocedural); does not decide that the right location is modified for all documents.',
          'DESIGN.md §4 C14'),
  'C15': ('path rules over the CFG of apply_patch (must-pass-through of the inverse undo entry after every mutation, commit dominance, total dispatch) and of the unwinder',
-         'Static path rules: after every mutating jsonpointer call on the target, every path to the next operation passes exactly the inverse undo entry at the same path with the value read before the mutation; commit is assigned only after the loop and every error return marks abort; an unknown op stores an error; the unwinder replays every op_type in reverse with the matching call. Quantifies over all paths through apply_patch, i.e. every failure point of every operation sequence shape. Also: definite_path is evaluated in the state the insertion sees (R15.5), the unwinder rolls back for every state except commit (R15.6, partial evaluation per enumerator), and the jsonpointer operations it relies on have exact bounds and store no error after a mutation (R14.4/R14.5).',
+         'Static path rules: after every mutating jsonpointer call on the target, every path to the next operation passes exactly the inverse undo entry at the same path with the value read before the mutation; commit is assigned only after the loop and every error return marks abort; an unknown op stores an error; the unwinder replays every op_type in reverse with the matching call. Quantifies over all paths through apply_patch, i.e. every failure point of every operation sequence shape. Also: definite_path is evaluated in the state the insertion sees (R15.5), the unwinder rolls back for every state except commit (R15.6, partial evaluation per enumerator), and the jsonpointer operations it relies on have exact bounds and store no error after a mutation (R14.4/R14.5); add_if_absent, whose success is logged as `remove`, never overwrites (R15.7).',
          'Decides the undo-log structure; does not decide that each inverse restores the exact prior state for all documents, nor the from_diff law. Known finding F28 (undo entries recorded after the mutation by an allocating call) is reported as KNOWN-FINDING.',
          'DESIGN.md §4 C15'),
  'C16': ('dominance facts over the CFG of the merge-patch recursion',
